@@ -3,6 +3,7 @@ package flaghelper
 // C15: parsing the canonical text form (what the flag helpers print) returns exactly the value.
 
 import (
+	"math"
 	"github.com/vimeo/dials/zzverif"
 )
 
@@ -191,6 +192,25 @@ func HarnessC15HelperEmpty() {
 		}
 	}
 	zzverif.Reached("c15-helper-empty-end")
+}
+
+// HarnessC15HelperComplex: the complex flag helpers print text that parses back to exactly the
+// value (parts that need more than float32 precision or range included).
+func HarnessC15HelperComplex() {
+	parts := []float64{1.0 / 3, 16777217, 1e39, 5e-324, -0.5, math.Inf(1)}
+	re, im := parts[zzverif.Choose("re", len(parts))], parts[zzverif.Choose("im", 3)]
+	in := complex(re, im)
+	text := NewComplex128Var(&in).String()
+	var out complex128
+	err := NewComplex128Var(&out).Set(text)
+	zzverif.Assert(err == nil && out == in, "C15 complex128 flag helper: the text it prints does not parse back to exactly the value")
+	small := []float32{0.1, 16777216, 3.4028235e+38, -1.5}
+	in64 := complex(small[zzverif.Choose("re64", len(small))], small[zzverif.Choose("im64", 2)])
+	text64 := NewComplex64Var(&in64).String()
+	var out64 complex64
+	err64 := NewComplex64Var(&out64).Set(text64)
+	zzverif.Assert(err64 == nil && out64 == in64, "C15 complex64 flag helper: the text it prints does not parse back to exactly the value")
+	zzverif.Reached("c15-helper-complex-end")
 }
 
 func HarnessC15HelperStrings1() { c15helperStrings(1) }
